@@ -339,6 +339,25 @@ def run(ctx):
             arg_ok = unparse(a_) in (f"0 if {iparam} is None else {iparam}", f"{iparam} if {iparam} is not None else 0")
         elif isinstance(a_, ast.Name) and a_.id == iparam:
             arg_ok = named
+        elif isinstance(a_, ast.Name):
+            # a local: each definition that reaches the pop is 0, the conditional form, or the caller's index where an index was named
+            from sa.guards import reaching_defs as _rdefs
+            prd = _rdefs(pg, exc=False)
+            ds = prd.get(n.id, {}).get(a_.id, set())
+            arg_ok = bool(ds)
+            for d in ds:
+                v = getattr(pg.nodes[d].ast, "value", None)
+                fd = set()
+                for t_, lab_ in pg.guards(d, exc=False):
+                    fd |= facts(t_, lab_ == "true")
+                d_named = (f"{iparam} is None", False) in fd or (f"{iparam} is not None", True) in fd
+                if isinstance(v, ast.Constant) and v.value == 0:
+                    continue
+                if isinstance(v, ast.IfExp) and unparse(v) in (f"0 if {iparam} is None else {iparam}", f"{iparam} if {iparam} is not None else 0"):
+                    continue
+                if isinstance(v, ast.Name) and v.id == iparam and d_named:
+                    continue
+                arg_ok = False
         else:
             arg_ok = False
         if not named:
